@@ -201,9 +201,10 @@ var props = map[string]*propConfig{
 	},
 	"C07": {
 		Harness: "h2", Level: "exploration",
-		Families:    []family{{Name: "concurrent-uploaders", Flags: map[string]string{"family": "plain"}, Quick: 12000, Thorough: 2000000}},
+		Families: []family{{Name: "concurrent-uploaders", Flags: map[string]string{"family": "plain"}, Quick: 12000, Thorough: 2000000},
+			{Name: "removal-after-disk-failure", Flags: map[string]string{"family": "diskfault"}, Quick: 160, Thorough: 40000}},
 		QuickBudget: 100 * time.Second, ThoroughBudget: 25 * time.Minute, Chunk: 50,
-		Rule:        "one run = a machine history of 2..4 rounds over simulated weeks: counter files of 3 programs x versions x Go versions x platforms (expired, active, empty, unreadable, near-miss names), then 1..4 concurrent real upload.Run calls in mode on or local scheduled at file-system/HTTP-call granularity with tape-permuted map order, server fates from the tape; after each round the reference aggregation is compared with local.<week>.json for every week that had no report, the call log is checked for removals before a report exists and for any mutating call on active/unreadable files, and existing reports must keep their bytes; distinct = distinct event-log hash; non-trivial = at least one context switch between live uploaders; in a third of the runs the machine lives in a local time zone (UTC-8, UTC+14, UTC-11:30) that every time.Now() carries, and one uploader in five is handed its start time in such a zone; a program named local.tool is in the pool; the directory name may carry a date; foreign json files, a debug directory with data-named files, several files of one build in a week, near-miss identities, empty metadata values and values up to 2^50 occur; a configuration may be published in mid-round",
+		Rule:        "one run = a machine history of 2..4 rounds over simulated weeks: counter files of 3 programs x versions x Go versions x platforms (expired, active, empty, unreadable, near-miss names), then 1..4 concurrent real upload.Run calls in mode on or local scheduled at file-system/HTTP-call granularity with tape-permuted map order, server fates from the tape; after each round the reference aggregation is compared with local.<week>.json for every week that had no report, the call log is checked for removals before a report exists and for any mutating call on active/unreadable files, and existing reports must keep their bytes; distinct = distinct event-log hash; non-trivial = at least one context switch between live uploaders; in a third of the runs the machine lives in a local time zone (UTC-8, UTC+14, UTC-11:30) that every time.Now() carries, and one uploader in five is handed its start time in such a zone; a program named local.tool is in the pool; the directory name may carry a date; foreign json files, a debug directory with data-named files, several files of one build in a week, near-miss identities, empty metadata values and values up to 2^50 occur; a configuration may be published in mid-round; removal-after-disk-failure: after each enumerated single call failure of the upload-failure world (see C05) a counter file that is gone must belong to a week that has a report (evaluations = executions)",
 		Real:        []string{"internal/upload (all of it: findWork, reports, createReport, uploadReport; instrumented)", "internal/telemetry (mode file)", "internal/config", "internal/counter.Parse (uninstrumented in this world)", "cmd/gotelemetry runOn/runLocal/runOff/runClean", "Linux tmpfs (O_EXCL, link, rename semantics are the kernel's)"},
 		Stub:        []string{"internal/configstore.Download replaced by a stub that hands out the simulated config store's current version (the real one runs `go mod download`)", "upload server: a policy stub deciding each request's fate (200 / 4xx / 5xx / no answer / processed-but-answer-lost / duplicate delivery); its verdict on a given body is stable", "counter files are produced by the independent encoder (refformat)", "crypto/rand.Reader replaced so that X is chosen by the tape", "Go scheduler, wall clock"},
 		Assumptions: []string{"weeks mixing expired and unexpired files of one end date are not generated (ends are midnights)", "sums stay far below 2^62", "sampling, not enumeration"},
